@@ -18,6 +18,7 @@ A case is a JSON-serialisable dict:
 import asyncio
 import datetime
 import decimal
+import json
 import logging
 from decimal import Decimal
 from fractions import Fraction as F
@@ -88,6 +89,12 @@ class _ErrCatcher(logging.Handler):
             self.errors.append(record.exc_info[1])
 
 
+def case_variant(case):
+    """a number fixed by the case's content: selects harness-side variations that the exchange must not be sensitive to"""
+    import zlib
+    return zlib.crc32(json.dumps([case["bars"][:4], case["initial"], case.get("profile")], sort_keys=True).encode())
+
+
 def build_exchange(case, dispatcher):
     from basana.backtesting import exchange as bx, fees, liquidity, lending
     from basana.core.pair import Pair, PairInfo
@@ -112,6 +119,10 @@ def build_exchange(case, dispatcher):
         for s, c in lc["conds"].items():
             lend.set_conditions(s, mk(c))
     dp = None if case["default_pair"] is None else PairInfo(*case["default_pair"])
+    if case["lend"] is not None and case_variant(case) & 2:
+        # the lending configuration object served an earlier backtest (another exchange, another account) before this one
+        import basana as bs
+        bx.Exchange(bs.backtesting_dispatcher(), {s: D(v) for s, v in case["initial"].items()}, lending_strategy=lend)
     e = bx.Exchange(dispatcher, {s: D(v) for s, v in case["initial"].items()},
                     liquidity_strategy_factory=liq_factory, fee_strategy=fee, default_pair_info=dp,
                     lending_strategy=lend)
@@ -276,6 +287,24 @@ async def _run_case(case, max_concurrent=1):
                 lid = loan_ids[ref] if ref < len(loan_ids) else "no-such-loan-%d" % ref
                 await e.repay_loan(lid)
                 reply = [F(0)]
+            elif kind == "reconfig":
+                # precision changed while the backtest runs (public setters of the exchange)
+                from basana.core.pair import PairInfo
+                if a[1] == "sym":
+                    e.set_symbol_precision(a[2], int(a[3]))
+                else:
+                    e.set_pair_info(pairs[int(a[2])], PairInfo(int(a[3][0]), int(a[3][1])))
+                reply = [F(0)]
+                # what the exchange reports for every pair from now on
+                infos = {}
+                for pi2, pr in enumerate(pairs):
+                    try:
+                        pinfo = await e.get_pair_info(pr)
+                        infos[pi2] = [pinfo.base_precision, pinfo.quote_precision]
+                    except Exception:       # noqa
+                        infos[pi2] = None
+                await record(a, reply, {"pair_infos": infos})
+                return
             elif kind == "list":
                 pair = None if a[1] is None else pairs[a[1]]
                 oo = await e.get_open_orders(pair)
@@ -324,7 +353,10 @@ async def _run_case(case, max_concurrent=1):
         for i, b in enumerate(case["bars"]):
             if b[0] != pi:
                 continue
-            begin = T0 + datetime.timedelta(seconds=int(b[1]) - 60)
+            # bar durations: one minute, or (in half of the cases) a feed mixing time frames, where a coarse bar that
+            # began long ago is delivered after finer ones that began later - delivery time is what orders events
+            dur = 3600 if (case_variant(case) & 1 and i % 3 == 2) else 60
+            begin = T0 + datetime.timedelta(seconds=int(b[1]) - dur)
             when = T0 + datetime.timedelta(seconds=int(b[1]))
             bar = core_bar.Bar(begin, pair, D(b[2]), D(b[3]), D(b[4]), D(b[5]), D(b[6]))
             ev = core_bar.BarEvent(when, bar)
@@ -481,23 +513,38 @@ def g_op(case, step):
     raise ValueError(op)
 
 
+def has_reconfig(tr):
+    return any(s["op"][0] == "reconfig" for s in tr.steps)
+
+
+def g_xop(case, step):
+    op = step["op"]
+    if op[0] == "reconfig":
+        if op[1] == "sym":
+            return f"(XSymPrec {g_sym(case, op[2])} {int(op[3])}%nat)"
+        return f"(XPairInfo {g_pair(case, int(op[2]))} ({int(op[3][0])}%nat, {int(op[3][1])}%nat))"
+    return f"(XOp {g_op(case, step)})"
+
+
 def g_case_args(case, tr):
     syms = listlit([str(i + 1) + "%positive" for i in range(len(case["syms"]))])
     init = listlit([f"({g_sym(case, s)}, {qlit(F(D(v)))})" for s, v in case["initial"].items()])
-    ops = listlit([g_op(case, s) for s in tr.steps])
+    ops = listlit([(g_xop if has_reconfig(tr) else g_op)(case, s) for s in tr.steps])
     return g_cfg(case), syms, init, ops
 
 
 def coq_check_item(case, tr):
     cfg, syms, init, ops = g_case_args(case, tr)
     expd = listlit([qlit(x) for x in expected_sums(tr)])
-    return f"Eval vm_compute in (check_case {cfg} {syms} {init} {ops} {expd})."
+    fn = "check_xcase" if has_reconfig(tr) else "check_case"
+    return f"Eval vm_compute in ({fn} {cfg} {syms} {init} {ops} {expd})."
 
 
 def coq_trace_item(case, tr, k):
     cfg, syms, init, ops = g_case_args(case, tr)
-    return f"Eval vm_compute in (trace_case {cfg} {syms} {init} {ops} {int(k)}%nat)."
+    fn = "trace_xcase" if has_reconfig(tr) else "trace_case"
+    return f"Eval vm_compute in ({fn} {cfg} {syms} {init} {ops} {int(k)}%nat)."
 
 
 EX_HEADER = ("From Coq Require Import ZArith QArith List PArith. Import ListNotations. Open Scope Q_scope.\n"
-             "From Basana Require Import Num.DecQ Exchange.Model Exchange.Obs.\n")
+             "From Basana Require Import Num.DecQ Exchange.Model Exchange.Obs Exchange.Reconfig.\n")
